@@ -577,6 +577,7 @@ SCOPE = {"kopfexamples": True, "widgets": True, "clusterthings": False}
 def oracle_operator(sc: dict, r: dict) -> list[tuple[str, dict]]:
     import fnmatch
     fails: list[tuple[str, dict]] = []
+    gone410 = {q["path"].rstrip("/").split("/")[-1] for q in r["watch_requests"] if q["response"] == 410}
     for c in r["checkpoints"]:
         if not c["alive"]:
             fails.append((f"the operator is not running at t={c['t']}: {r.get('op_error')}",
@@ -596,6 +597,8 @@ def oracle_operator(sc: dict, r: dict) -> list[tuple[str, dict]]:
             dup = len(set(got)) != len(got)
             if not missing and not dup and not nss and all((not SCOPE[g[0]]) and g[1] is None and g[0] in served for g in extra):
                 fails.append((f"t={c['t']}: no namespace is served but the cluster-scoped watch(es) {extra} are still open", F3_SIG))
+            elif not extra and not dup and missing and all(m[0] in gone410 for m in missing):
+                fails.append((f"t={c['t']}: served pair(s) {missing} have no watch: the watcher died on HTTP 410 and is never restarted", F1_SIG))
             else:
                 fails.append((f"t={c['t']}: open watches {got} != served pairs {want}",
                               {"site": "orchestration.adjust_tasks", "shape": "active watches != served pairs"}))
@@ -608,7 +611,6 @@ def oracle_operator(sc: dict, r: dict) -> list[tuple[str, dict]]:
         else:
             ok_ns = [n for n in last["namespaces"] if any(fnmatch.fnmatch(n, p) for p in sc["patterns"])]
         seen = {(c["res"], c["ns"], c["name"]): c["rv"] for c in r["calls"]}
-        gone410 = {q["path"].rstrip("/").split("/")[-1] for q in r["watch_requests"] if q["response"] == 410}
         for plural, ns, name, rv in last["objects"]:
             if plural not in served or (SCOPE[plural] and ok_ns is not None and ns not in ok_ns):
                 continue
